@@ -163,7 +163,7 @@ def run(ctx, prog):
                     ls = rootb.var_local(m_.group(1))
                     if len(ls) == 1:
                         kk = flow.render(flow.Origin(rootb).of_local(ls[0]))
-                idx = sum(1 for x in ctx.instances if x['rule'] == 'C16.R3' and x['key'].startswith('C16.R3 | %s | index asked' % b.short.split('::{')[0]))
+                idx = sum(1 for x in ctx.instances if x.get('config') == ctx.config and x['rule'] == 'C16.R3' and x['key'].startswith('C16.R3 | %s | index asked' % b.short.split('::{')[0]))
                 ctx.inst('C16.R3', b.short.split('::{')[0], 'index asked for compute_search_k(k, live, total) candidates #%d' % idx, bool(re.match(r'^hnsw_backend::compute_search_k\((arg|cap|var):k\b', kk)) or kk.startswith('hnsw_backend::compute_search_k('), 'k passed to the index: %s' % kk[:100])
     # the caller's ef override reaches the index unchanged: the index applies its adaptive default beam (≥ 200, near-exhaustive for small indexes) only
     # when the override is None, so turning None into Some(search_k) narrows the beam to the oversampled k as soon as one tombstone exists
@@ -174,7 +174,7 @@ def run(ctx, prog):
         for c in b.calls:
             if c.callee and re.search(r'HnswVectorIndex::knn_search_with_ef\w*$', c.callee) and len(c.args) > 3:
                 ef = flow.render(of.of_operand(c.args[3]))
-                idx = sum(1 for x in ctx.instances if x['rule'] == 'C16.R3' and x['key'].startswith('C16.R3 | %s | ef override' % b.short.split('::{')[0]))
+                idx = sum(1 for x in ctx.instances if x.get('config') == ctx.config and x['rule'] == 'C16.R3' and x['key'].startswith('C16.R3 | %s | ef override' % b.short.split('::{')[0]))
                 ctx.inst('C16.R3', b.short.split('::{')[0], 'ef override handed to the index unchanged #%d' % idx, ef in ('arg:ef_search_override', 'cap:ef_search_override'), 'ef argument: %s' % ef[:100])
     hi = ctx.body('C16.R3', 'HnswVectorIndex::knn_search_with_ef_cancel_impl')
     if hi is not None:
